@@ -16,12 +16,45 @@ ACTIONS = ["CreateIO", "PreResolve", "Resolve", "PreHandle", "PreHandleEnd", "In
 
 LINES = {
     "alpha_x": "alpha x", "alpha_x_flag": "alpha x --flag", "beta": "beta", "beta_gamma_y": "beta gamma y",
-    "beta_gamma_y_num": "beta gamma y --num 7", "alpha_missing": "alpha", "nosuch": "nosuch",
+    "beta_gamma_y_num": "beta gamma y --num 7", "alpha_missing": "alpha", "nosuch": "nosuch", "empty": "",
 }
 VALUES = {
     "None": None, "False": False, "0": 0, "0.0": 0.0, "empty_str": "", "empty_list": [], "True": True, "-5": -5, "1": 1, "255": 255,
     "300": 300, "s3": "3", "s0": "0", "0.5": 0.5, "abc": "abc", "nan": float("nan"), "inf": float("inf"), "list": [1],
+    "b3": b"3", "bempty": b"", "big": 2 ** 70, "negzero": -0.0, "babc": b"abc",
 }
+
+
+class _IntLike(object):
+    """what a numeric library hands back: converts with int(), truth value of its own"""
+
+    def __init__(self, n, truth):
+        self.n, self.truth = n, truth
+
+    def __int__(self):
+        return self.n
+
+    def __bool__(self):
+        return self.truth
+
+
+def value_of(name):
+    if name == "dec27":
+        from decimal import Decimal
+
+        return Decimal("2.7")
+    if name == "dec0":
+        from decimal import Decimal
+
+        return Decimal(0)
+    if name == "intlike7":
+        return _IntLike(7, True)
+    if name == "falsy9":
+        return _IntLike(9, False)
+    return VALUES[name]
+
+
+VALUE_NAMES = list(VALUES) + ["dec27", "dec0", "intlike7", "falsy9"]
 FIXED_MESSAGES = {
     "Foreign": "foreign failure", "Library": "library failure", "WithCode": "failure with a code", "Chained": "the effect",
     "TagOpen": "an <info>open tag", "TagClose": "a closing </info> tag only", "TagUnbalanced": "<b>x</info>",
@@ -137,8 +170,14 @@ def message_of(kind, override):
 class Recorder(object):
     """handler of every command: records the invocation, then does what the environment says"""
 
-    def __init__(self, calls, outcome, msg, scope="top"):
-        self.calls, self.outcome, self.msg, self.scope = calls, outcome, msg, scope
+    def __init__(self, slot):
+        self.slot = slot  # what to do is looked up when the handler runs: one handler object can serve several runs
+
+    calls = property(lambda self: self.slot["calls"])
+    outcome = property(lambda self: self.slot["env"]["outcome"])
+    msg = property(lambda self: self.slot["msgs"].get("handler"))
+    scope = property(lambda self: self.slot["env"].get("scope", "top"))
+
 
     def handle(self, args, io, command):
         opts = args.options()
@@ -157,10 +196,23 @@ class Recorder(object):
     def _finish(self):
         if self.outcome["t"] == "raise":
             raise_kind(self.outcome["k"], self.msg)
-        return VALUES[self.outcome["v"]]
+        return value_of(self.outcome["v"])
 
 
-def build_app(env, msgs, calls, formatter=None):
+class MethodOnly(object):
+    """the route "another handler_method": an object that has no handle() at all"""
+
+    def __init__(self, recorder):
+        self._r = recorder
+
+    def execute(self, args, io, command):
+        return self._r.handle(args, io, command)
+
+
+def build_app(slot, formatter=None, session=False):
+    """slot = {"env", "msgs", "calls"}: the application is configured from slot["env"] (kind, catching, handler route);
+    handler and listeners look their behaviour up in the slot when they run.  session: the application is going to serve
+    several runs with different environments - every listener position is registered and the I/O factory reads the slot"""
     from clikit import ConsoleApplication
     from clikit.api.args.format import Argument, Option
     from clikit.api.config import ApplicationConfig as Base
@@ -171,6 +223,7 @@ def build_app(env, msgs, calls, formatter=None):
     from clikit.formatter import PlainFormatter
     from clikit.resolver import DefaultResolver
 
+    env = slot["env"]
     if env["app"] == "plain":
         class Cfg(Base):
             @property
@@ -178,11 +231,11 @@ def build_app(env, msgs, calls, formatter=None):
                 return DefaultResolver()
 
         cfg = Cfg()
-        verb = {0: None, 1: F.VERBOSE, 2: F.VERY_VERBOSE, 3: F.DEBUG}[env["verb"]]
 
         def factory(app, args, input_stream, output_stream, error_stream):
             fmt = formatter if formatter is not None else PlainFormatter()  # a shared one: see run_trace
             io = IO(Input(input_stream), Output(output_stream, fmt), Output(error_stream, fmt))
+            verb = {0: None, 1: F.VERBOSE, 2: F.VERY_VERBOSE, 3: F.DEBUG}[slot["env"]["verb"]]
             if verb is not None:
                 io.set_verbosity(verb)
             return io
@@ -191,31 +244,53 @@ def build_app(env, msgs, calls, formatter=None):
     else:
         cfg = DefaultApplicationConfig("app", "1.0")
     cfg.set_catch_exceptions(env["catch"])
-    cfg.set_terminate_after_run(False)
-    handler = Recorder(calls, env["outcome"], msgs.get("handler"), env.get("scope", "top"))
+    cfg.set_terminate_after_run(bool(env.get("exit")))
+    handler = Recorder(slot)
+    route = env.get("hroute", "object")
+
+    def attach(c):
+        if route == "factory":
+            c.set_handler(lambda: handler)
+        elif route == "method":
+            c.set_handler(MethodOnly(handler))
+            c.set_handler_method("execute")
+        else:
+            c.set_handler(handler)
+
     with cfg.command("alpha") as c:
         c.add_argument("a", Argument.REQUIRED)
         c.add_option("flag", None, Option.NO_VALUE)
-        c.set_handler(handler)
+        attach(c)
     with cfg.command("beta") as c:
         c.add_option("num", None, Option.REQUIRED_VALUE)
-        c.set_handler(handler)
-        with c.sub_command("gamma") as s:
-            s.add_argument("c", Argument.REQUIRED)
-            s.set_handler(handler)
-    if env["pre"] != "none":
-        def pre(event, name, dispatcher, _raise=env["pre"] == "raise"):
-            if _raise:
-                raise_kind("Foreign", msgs.get("pre"))
+        attach(c)
+        with c.sub_command("gamma") as sub:
+            sub.add_argument("c", Argument.REQUIRED)
+            attach(sub)
+    if env["app"] == "plain":
+        with cfg.command("delta") as c:  # what an empty command line runs
+            c.default()
+            attach(c)
+    if session or env["pre"] != "none":
+        def pre(event, name, dispatcher):
+            if slot["env"]["pre"] == "raise":
+                raise_kind("Foreign", slot["msgs"].get("pre"))
 
         cfg.add_event_listener(PRE_RESOLVE, pre, 10)
-    for k, ls in enumerate(env["listeners"]):
-        def listener(event, name, dispatcher, _ls=ls, _msg=msgs.get("l%d" % (k + 1))):
-            if _ls["b"] == "raise":
-                raise_kind(_ls["k"], _msg)
-            if _ls["b"] == "handle":
+    for k in range(3 if session else len(env["listeners"])):
+        def listener(event, name, dispatcher, _k=k):
+            lss = slot["env"]["listeners"]
+            if _k >= len(lss):
+                return
+            ls = lss[_k]
+            if ls["b"] == "raise":
+                raise_kind(ls["k"], slot["msgs"].get("l%d" % (_k + 1)))
+            if ls["b"] == "handle":
                 event.handled(True)
-                event.set_status_code(VALUES[_ls["v"]])
+                event.set_status_code(value_of(ls["v"]))
+            if ls["b"] == "noise":  # a listener that uses the I/O itself: leaves a tag open, raises the verbosity
+                event.io.write_line("<b>listener %d" % _k)
+                event.io.set_verbosity(F.VERY_VERBOSE)
 
         cfg.add_event_listener(PRE_HANDLE, listener, -1 - k)  # in the order of the environment, after the built-in ones
     return ConsoleApplication(cfg)
@@ -236,8 +311,13 @@ def case_messages(env, override=None):
 
 
 def run_trace(case):
-    """-> the trace of the case: one run, or - case["then"] = a second case - two runs one after the other whose I/Os share
-    one formatter object (only the plain application's I/O factory can do that)"""
+    """-> the trace of the case: one run; or - case["then"] = a second case - two runs one after the other whose I/Os share
+    one formatter object (only the plain application's I/O factory can do that); or - case["session"] = more cases - several
+    runs served by ONE application object"""
+    if case.get("session"):
+        slot = {}
+        app = [None]
+        return [run_case(c, slot=slot, app=app) for c in [case] + case["session"]]
     if not case.get("then"):
         return [run_case(case)]
     from clikit.formatter import PlainFormatter
@@ -246,7 +326,7 @@ def run_trace(case):
     return [run_case(case, shared), run_case(case["then"], shared)]
 
 
-def run_case(case, formatter=None):
+def run_case(case, formatter=None, slot=None, app=None):
     """case = {"env": ..., "msgs": optional overrides} -> one event"""
     from clikit.args import StringArgs
     from clikit.io.input_stream import StringInputStream
@@ -254,29 +334,52 @@ def run_case(case, formatter=None):
 
     env = case["env"]
     env.setdefault("scope", "top")
+    env.setdefault("hroute", "object")
+    env.setdefault("exit", False)
     msgs = case_messages(env, case.get("msgs"))
-    calls = []
-    app = build_app(env, msgs, calls, formatter)
-    line = LINES[env["line"]]
-    if env["app"] == "default" and env["verb"]:
-        line += " -" + "v" * env["verb"]
+    if slot is None:
+        slot = {}
+    slot.update(env=env, msgs=msgs, calls=[])
+    calls = slot["calls"]
     out, err = BufferedOutputStream(), BufferedOutputStream()
     status, escaped = -1, ""
     try:
-        r = app.run(StringArgs(line), StringInputStream(""), out, err)
-        if isinstance(r, int) and not isinstance(r, bool) and -(2 ** 30) < r < 2 ** 30:
-            status = r
+        if app is None:
+            application = build_app(slot, formatter)
         else:
-            escaped = "returned:" + type(r).__name__
-    except (T.MachineryError, SystemExit, GeneratorExit):
+            if app[0] is None:
+                app[0] = build_app(slot, formatter, session=True)
+            application = app[0]
+    except (T.MachineryError, KeyboardInterrupt):
         raise
-    except BaseException as e:  # noqa: what escapes run() is the observation
-        escaped = type(e).__name__
+    except BaseException as e:  # noqa: a library that cannot even be configured is an observation, not a harness crash
+        application, escaped = None, "build:" + type(e).__name__
+    line = LINES[env["line"]]
+    if env["app"] == "default" and env["verb"]:
+        line += " -" + "v" * env["verb"]
+    if application is not None:
+        try:
+            r = application.run(StringArgs(line), StringInputStream(""), out, err)
+            if env["exit"]:
+                escaped = "returned although terminate_after_run is set"
+            elif isinstance(r, int) and not isinstance(r, bool) and -(2 ** 30) < r < 2 ** 30:
+                status = r
+            else:
+                escaped = "returned:" + type(r).__name__
+        except (T.MachineryError, GeneratorExit):
+            raise
+        except SystemExit as e:
+            if env["exit"] and isinstance(e.code, int) and not isinstance(e.code, bool) and -(2 ** 30) < e.code < 2 ** 30:
+                status = e.code  # terminate_after_run: the status arrives as sys.exit(status)
+            else:
+                escaped = "SystemExit"
+        except BaseException as e:  # noqa: what escapes run() is the observation
+            escaped = type(e).__name__
     shown = {}
     for src in ("pre", "l1", "l2", "l3", "handler"):
         m = msgs.get(src)
         shown[src] = {"known": m is not None, "lines": [cells(x) for x in m.split("\n")] if m is not None else []}
-    o = {"status": status, "escaped": escaped, "calls": calls, "chars": len(out.fetch()) + len(err.fetch()),
+    o = {"status": status, "escaped": escaped, "calls": list(calls), "chars": len(out.fetch()) + len(err.fetch()),
          "out": [cells(x) for x in out.fetch().split("\n")], "err": [cells(x) for x in err.fetch().split("\n")]}
     return {"op": "run", "env": env, "msgs": shown, "o": o}
 
@@ -296,24 +399,27 @@ def nontrivial(env):
 
 def random_env(rng):
     app = rng.choice(["plain", "default"])
-    line = rng.choice([k for k in LINES if not (k == "nosuch" and app == "default")] + ["alpha_x", "beta_gamma_y_num"])
+    line = rng.choice([k for k in LINES if not (k in ("nosuch", "empty") and app == "default")] + ["alpha_x", "beta_gamma_y_num"])
     kinds = ALL_KINDS
     listeners = []
     for _ in range(rng.choice([0, 0, 0, 1, 1, 2, 3])):
         x = rng.random()
-        if x < 0.5:
+        if x < 0.15:
+            listeners.append({"b": "noise", "v": "", "k": ""})
+        elif x < 0.5:
             listeners.append({"b": "pass", "v": "", "k": ""})
         elif x < 0.8:
-            listeners.append({"b": "handle", "v": rng.choice(list(VALUES)), "k": ""})
+            listeners.append({"b": "handle", "v": rng.choice(VALUE_NAMES), "k": ""})
         else:
             listeners.append({"b": "raise", "v": "", "k": rng.choice(kinds)})
     if rng.random() < 0.5:
-        outcome = {"t": "ret", "v": rng.choice(list(VALUES)), "k": ""}
+        outcome = {"t": "ret", "v": rng.choice(VALUE_NAMES), "k": ""}
     else:
         outcome = {"t": "raise", "v": "", "k": rng.choice(kinds)}
     env = {"app": app, "catch": rng.random() < 0.85, "verb": rng.choice([0, 0, 1, 2, 3]), "line": line,
            "pre": rng.choice(["none", "none", "pass", "raise"]), "listeners": listeners, "outcome": outcome,
-           "scope": rng.choice(SCOPES)}
+           "scope": rng.choice(SCOPES), "hroute": rng.choice(["object", "object", "factory", "method"]),
+           "exit": rng.random() < 0.15}
     msgs = {src: rng.choice(MESSAGES) for src in ("pre", "l1", "l2", "l3", "handler") if rng.random() < 0.8}
     return {"env": env, "msgs": msgs}
 
@@ -342,6 +448,23 @@ def random_pair(rng):
     return a
 
 
+def random_session(rng):
+    """3-4 runs served by one application object: same application kind / catching / handler route / exit setting, everything
+    else drawn anew for every run - failing and succeeding runs in any order"""
+    first = random_env(rng)
+    first["env"]["catch"] = True
+    rest = []
+    for _ in range(rng.choice([2, 2, 3])):
+        c = random_env(rng)
+        for k in ("app", "catch", "hroute", "exit"):
+            c["env"][k] = first["env"][k]
+        if c["env"]["line"] in ("nosuch", "empty") and c["env"]["app"] == "default":
+            c["env"]["line"] = "alpha_x"
+        rest.append(c)
+    first["session"] = rest
+    return first
+
+
 def run(ctx):
     try:
         _run(ctx)
@@ -356,13 +479,14 @@ def _run(ctx):
         "Report, Return) for every environment of the product {plain, default application} x catching on/off x 4 verbosities x "
         "7 command lines (two commands, a sub-command, options, a missing argument, an unknown command) x pre-resolve listener "
         "{none, passes, raises} x up to 1/2 pre-handle listeners {pass, handle with 0 / '3' / 300, raise Foreign / tagged "
-        "library error / KeyboardInterrupt} x {at the top of the handler, inside io.indent / io.increment_indent / io.output.indent scopes} x 18 handler results + 23 exception kinds (6 of them carrying a `code` that is an int / a method / None / a string / a float / 70000), checking Contained, ZeroIff, Clamped, "
+        "library error / KeyboardInterrupt} x {at the top of the handler, inside io.indent / io.increment_indent / io.output.indent scopes} x handler configured as object / factory / other method name x terminate_after_run off / on (status via sys.exit) x 27 handler results (incl. Decimal, bytes, 2**70, objects with __int__ / __bool__) + 23 exception kinds (6 of them carrying a `code` that is an int / a method / None / a string / a float / 70000), checking Contained, ZeroIff, Clamped, "
         "Reported, Interrupt, CallsOK on every final state and termination under fairness; three sub-products (all outcomes x "
         "verbosities; all listener pairs; all lines x pre-resolve) are emitted and replayed on real applications (status, "
         "escaping exception, handler invocations with command name / arguments / options, whether anything was printed); "
         "seeded random environments (up to 3 listeners, every value / kind anywhere, 33 adversarial messages; every fifth trace = "
         "two runs whose I/Os share one formatter, the first report leaving a style tag open, the second closing one it did not "
-        "open) are recorded and "
+        "open; every fifth = a session of 3-4 runs served by ONE application object with different outcomes, lines, listeners) "
+        "are recorded and "
         "decided by AppRunTrace (the printed text must show the message of the effective exception, style markup aside).  "
         "Non-trivial: something raises, a listener handles, or the result needs normalising"
     )
@@ -417,7 +541,7 @@ def _run(ctx):
     ctx.extra["tlc_environments_replayed"] = len(seen)
     ctx.extra["tlc_environments_not_reproduced"] = bad
     for t in range(1000 if quick else 20000):
-        case = random_env(ctx.rng) if t % 5 else random_pair(ctx.rng)
+        case = random_pair(ctx.rng) if t % 5 == 0 else random_session(ctx.rng) if t % 5 == 1 else random_env(ctx.rng)
         traces.append(run_trace(case))
         cases.append(case)
         ctx.count()
